@@ -49,7 +49,11 @@ _R = {             # the real functions
     "os.pipe2": getattr(_os, "pipe2", None), "os.dup": _os.dup, "os.dup2": _os.dup2,
     "termios.tcgetwinsize": getattr(_termios, "tcgetwinsize", None),
     "os.eventfd": getattr(_os, "eventfd", None),
+    "signal.pthread_sigmask": _signal.pthread_sigmask,
 }
+for _n in ("sigpending", "sigwait", "sigwaitinfo", "sigtimedwait", "siginterrupt", "setitimer", "alarm",
+           "pthread_kill", "raise_signal"):
+    _R["signal." + _n] = getattr(_signal, _n, None)
 
 
 def _fdof(x):
@@ -173,6 +177,22 @@ def _signal_set_wakeup_fd(fd, **kw):
     if _K is not None:
         return _K.sig.set_wakeup_fd(fd, **kw)
     return _R["signal.set_wakeup_fd"](fd, **kw)
+
+
+def _signal_pthread_sigmask(how, mask):
+    if _K is not None:
+        return _K.sig.pthread_sigmask(how, mask)
+    return _R["signal.pthread_sigmask"](how, mask)
+
+
+def _signal_not_modelled(name):
+    def f(*a, **kw):
+        if _K is not None:
+            from .world import HarnessError
+            raise HarnessError("%s is not modelled by the simulated kernel" % name)
+        return _R[name](*a, **kw)
+    f.__name__ = name.split(".")[1]
+    return f
 
 
 def _time_time():
@@ -310,6 +330,11 @@ def _install_global():
     _termios.tcgetattr, _termios.tcsetattr = _tcgetattr, _tcsetattr
     _tty.tcgetattr, _tty.tcsetattr = _tcgetattr, _tcsetattr
     _signal.signal, _signal.getsignal, _signal.set_wakeup_fd = _signal_signal, _signal_getsignal, _signal_set_wakeup_fd
+    _signal.pthread_sigmask = _signal_pthread_sigmask
+    for _n in ("sigpending", "sigwait", "sigwaitinfo", "sigtimedwait", "siginterrupt", "setitimer", "alarm",
+               "pthread_kill", "raise_signal"):
+        if _R.get("signal." + _n) is not None:
+            setattr(_signal, _n, _signal_not_modelled("signal." + _n))
     _time.time, _time.monotonic, _time.sleep = _time_time, _time_monotonic, _time_sleep
     _locale.getpreferredencoding = _getpreferredencoding
     _os.isatty, _os.get_terminal_size = _os_isatty, _os_get_terminal_size
@@ -415,12 +440,34 @@ def set_platform(platform):
     curtsies.input.sys = _REPO_SYS if platform in (None, sys.platform) else _SysProxy(platform)
 
 
+def _clear_library_caches():
+    """One worker process hosts runs with different simulated locales, platforms and clocks - something no real
+    process lives through.  A memo the library keeps per process (functools.lru_cache / cache on a module-level
+    function or a method) is therefore emptied between runs; what a cache does within one run is judged as usual."""
+    import sys as _sys
+    for name, mod in list(_sys.modules.items()):
+        if mod is None or not (name == "curtsies" or name.startswith("curtsies.")):
+            continue
+        for v in list(vars(mod).values()):
+            cc = getattr(v, "cache_clear", None)
+            if cc is not None and callable(cc):
+                cc()
+            elif isinstance(v, type) and getattr(v, "__module__", None) == name:
+                for a in list(vars(v).values()):
+                    a = getattr(a, "__func__", a)
+                    a = getattr(a, "fget", a)
+                    cc = getattr(a, "cache_clear", None)
+                    if cc is not None and callable(cc):
+                        cc()
+
+
 def bind(world, kernel, encoding="utf-8", read_size=None, locale_name=None):
     """Make `world` the target of every seam call (one run at a time per process).  locale_name: the
     spelling locale.getpreferredencoding() answers with (real locales say 'UTF-8', 'ANSI_X3.4-1968', ...)"""
     global _W, _K
     _W, _K = world, kernel
     _encoding[0] = locale_name or encoding
+    _clear_library_caches()
     if _REPO_READ_SIZE is not None:
         # the read-size knob (only values the module's own assert allows); absent -> knob not applied
         curtsies.input.READ_SIZE = read_size if read_size is not None else _REPO_READ_SIZE
